@@ -479,3 +479,71 @@ def progress_oracle(obs, x):
                 out.append(V(f'{x.label}/{s.name}: running progress sum left [0,{size}]: min {s.sum_min}, max {s.sum_max}',
                              **mech, sym='range'))
     return out
+
+
+# ------------------------------------------------------------------------ C07
+def expected_cancel_error(spec, how):
+    """(exception type, message) a cancelled transfer must report for an entry point."""
+    msg = spec.get('cancel_msg', 'bye')
+    if how == 'future.cancel' or how == 'kbi_result':
+        return CancelledError, ''
+    if how == 'shutdown_cancel':
+        return CancelledError, msg
+    if how == 'with_exc':
+        return FatalError, (msg if msg else repr(ValueError(msg)))
+    if how in ('with_kbi', 'kbi_shutdown'):
+        return CancelledError, 'KeyboardInterrupt()'
+    raise ValueError(how)
+
+
+def cancel_oracle(obs, x, how, not_started=False, targeted=True):
+    """x was (possibly) unfinished when a cancel through entry point ``how`` began."""
+    out = []
+    mech = base_mech(obs, x)
+    mech['entry'] = how
+    cb = [e for e in obs.events if e['kind'] == 'cancel.begin']
+    if not cb or x.outcome is None:
+        return out
+    cn = cb[0]['n']
+    rr = [e for e in obs.events if e['kind'] == 'cb.on_done' and e.get('label') == x.label]
+    finished_before = bool(rr) and rr[0]['n'] < cn
+    counted, mine = counted_faults(obs, x)
+    etype, emsg = expected_cancel_error(obs.spec, how)
+    if x.outcome == 'raised':
+        exc = x.exc
+        if isinstance(exc, CancelledError):
+            if not targeted:
+                out.append(V(f'{x.label}: reports {exc!r} although it was not the cancelled transfer', **mech, sym='collateral-cancel'))
+            elif type(exc) is not etype or str(exc) != emsg:
+                out.append(V(f'{x.label}: cancelled through {how} but result() raised {type(exc).__name__}({str(exc)!r}); '
+                             f'expected {etype.__name__}({emsg!r})', **mech, sym='wrong-cancel-error'))
+        elif not unwrap_matches(exc, mine):
+            out.append(V(f'{x.label}: cancelled through {how} but result() raised {exc!r}, neither the cancellation error nor an '
+                         f'injected fault', **mech, sym='foreign-exception'))
+    elif x.outcome == 'success':
+        if not_started:
+            out.append(V(f'{x.label}: had not started when it was cancelled, yet reported success', **mech, sym='not-started-success'))
+        for v in content_oracle(obs, x):
+            v['mech']['entry'] = how
+            v['mech']['sym'] = 'success-incomplete-after-cancel'
+            out.append(v)
+    if not_started:
+        s3 = [e for e in obs.events if e['kind'] == 'api.begin' and e.get('label') == x.label]
+        if s3:
+            out.append(V(f'{x.label}: had not started when it was cancelled, yet issued {len(s3)} S3 request(s), first '
+                         f'{s3[0]["op"]}', **mech, sym='request-after-not-started-cancel'))
+        q = [e for e in obs.events if e['kind'] == 'cb.on_queued' and e.get('label') == x.label]
+        if q:
+            out.append(V(f'{x.label}: had not started when it was cancelled, yet on_queued ran', **mech, sym='queued-after-not-started-cancel'))
+        if x.outcome == 'raised' and not isinstance(x.exc, CancelledError):
+            out.append(V(f'{x.label}: cancelled before start but reports {x.exc!r}', **mech, sym='not-started-wrong-error'))
+    # cleanups
+    v5, _ = mpu_oracle(obs, x)
+    for v in v5:
+        v['mech']['entry'] = how
+    out += v5
+    v6 = fs_oracle(obs, x)
+    for v in v6:
+        v['mech']['entry'] = how
+    out += v6
+    return out
